@@ -215,6 +215,10 @@ func execC18(ctx *Ctx, in *Input) *Result {
 				}
 			}
 		}
+		if seenStates == 0 && len(a.States) > 0 {
+			res.Harness = "debug listing format not recognised (no state header found): " + firstLines(o.Stdout, 4)
+			return res
+		}
 		if seenStates != len(a.States) {
 			return fail("listing-state-count", "the listing shows %d states, the tables have %d", seenStates, len(a.States))
 		}
@@ -299,6 +303,10 @@ func execC18(ctx *Ctx, in *Input) *Result {
 			if strings.Contains(ln, "->") || strings.Contains(ln, "state_") {
 				return fail("graph-unreadable", "graph line not understood: %q", ln)
 			}
+		}
+		if len(nodeLabel) == 0 && len(a.States) > 0 {
+			res.Harness = "DOT text format not recognised (no node statement found): " + firstLines(o.DotText, 4)
+			return res
 		}
 		if len(nodeLabel) != len(a.States) {
 			return fail("graph-node-count", "the graph has %d nodes, the tables have %d states", len(nodeLabel), len(a.States))
